@@ -121,6 +121,19 @@ def gen_cases(tier, rng):
         if rng.chance(1, 3):
             w.insert(rng.below(len(w) + 1), _fuzz_word(rng))
         cases.append(base + A.argv_tok(w) + ' kind:sub-group')
+    # an argument in value mode "command" (takes the rest of the command line as its value) in every position,
+    # also as the very last word and through the file / environment sources (outside the model: sanitizers only)
+    cbase = 'arg:v:b0:init=0 arg:n:i0: arg:x,exec:s0:vm=cmd '
+    for w in (['-x'], ['--exec'], ['-v', '-x'], ['-vx'], ['-x', 'a', 'b'], ['-n', '5', '-x'], ['-x', '-v'], ['-x', '--', 'q'],
+              ['--exec=ls', '-l'], ['-x', ''], ['-v', '--exe']):
+        cases.append('H:f=0 ' + cbase + A.argv_tok(w) + ' kind:command-mode')
+    for content in ('-v -x', '-x', '-n 7 -x\n-v', '-x a b\n'):
+        cases.append('H:f=16 prog:%s %sfile:%s argv:- kind:command-mode' % (A.hx('pcm'), cbase, A.hx(content)))
+        cases.append('H:f=32 prog:%s %senv:%s argv:2d76 kind:command-mode' % (A.hx('pcm'), cbase, A.hx(content.replace('\n', ' '))))
+    # a directory where an argument file is expected: nothing to read, the evaluation must come back
+    cases.append('H:f=0 arg:v:b0:init=0 arg:arg-file:af0: xdir:%s argv:2d2d6172672d66696c65,6431 kind:directory-as-file' % A.hx('d1'))
+    cases.append('H:f=0 arg:v:b0:init=0 arg:arg-file:af0: xdir:%s argv:2d2d6172672d66696c653d6431,2d76 kind:directory-as-file' % A.hx('d1'))
+    cases.append('H:f=0 arg:v:b0:init=0 arg:arg-file:af0: xdir:2e argv:2d2d6172672d66696c653d2e kind:directory-as-file')
     n += len(cases)
     guard = 0
     while len(cases) < n and guard < n * 20:
